@@ -279,7 +279,7 @@ def finish(ctx, seed):
             "checker_selftest": getattr(ctx, "selftest", None),
         },
         "assumptions": ctx.assumptions,
-        "wall_s": round(time.time() - ctx.t0 + ctx.info.get("extract_s", 0), 2),
+        "wall_s": round(time.time() - ctx.t0 + ctx.info.get("extract_s", 0) + ctx.info.get("load_s", 0), 2),
         "violations": nviol,
     }
     with open(os.path.join(ev_dir, ctx.prop + ".json"), "w") as f:
@@ -383,6 +383,9 @@ def checker_selftest(prop):
             except Exception:
                 continue
             if meta.get("property") != prop:
+                continue
+            if meta.get("superseded"):
+                res["seeded"].append({"id": meta["id"], "status": "SUPERSEDED", "why": meta["superseded"]})
                 continue
             a = subprocess.run(["git", "-C", wt, "apply", os.path.join(d, "patch.diff")], stdout=subprocess.PIPE, stderr=subprocess.STDOUT, text=True)
             if a.returncode:
